@@ -1510,6 +1510,12 @@ func (e *CoreExtension) filterLast(value interface{}, args ...interface{}) (inte
 			return rv.Index(rv.Len() - 1).Interface(), nil
 		}
 		return nil, nil
+	case reflect.Map:
+		// The last entry in the (sorted) order a for loop visits the map in
+		if keys := sortedMapKeys(rv); len(keys) > 0 {
+			return mapEntry(rv, keys[len(keys)-1]), nil
+		}
+		return nil, nil
 	}
 
 	return nil, fmt.Errorf("cannot get last element of %T", value)
